@@ -287,6 +287,6 @@ def run(ctx):
     ctx.stage('binding-selftest', ok=True)
     ctx.cov['rule'] = ('all code-point sequences up to length 3 over 12 boundary code points x 4 TLA+ codecs (round trip), length <= 2 x '
                        '3 error policies, bytes made by one encoding handed over under another (fallback to UTF-8, transcode unless names '
-                       'agree case-insensitively), type contract; six table-driven encodings by contract; all slug class sequences up to '
+                       'agree case-insensitively), type contract (incl. a str subclass); every seventh transcoding case behind 5000 ASCII bytes; six table-driven encodings by contract; all slug class sequences up to '
                        'length 4/5 over 13 classes, two concretisations each')
     ctx.cov['exhaustive'] = True
